@@ -7,10 +7,11 @@ CONSTANTS LeafSet,   \* "small" | "full"
           OpSet,     \* "one" | "two"   (the laws do not depend on which operator a node carries)
           MaxDepth
 
-SmallLeaves == { Var("x"), Var("y"), Addr("m", 0), Addr("m", 1), Addr("n", 0), GNum(2) }
+\* the region x shares its name with the variable x (index 0 and 1)
+SmallLeaves == { Var("x"), Var("y"), Addr("x", 0), Addr("x", 1), Addr("n", 0), GNum(2) }
 FullLeaves  == SmallLeaves \cup { PiC, Var("z") }
 Leaves == IF LeafSet = "small" THEN SmallLeaves ELSE FullLeaves
-Ops == IF OpSet = "one" THEN {"-"} ELSE {"-", "^"}
+Ops == IF OpSet = "one" THEN {"^"} ELSE {"^", "-"}
 Fns == {"sin"}
 Prefixes == {"neg", "pos"}
 
